@@ -11,6 +11,8 @@ pub mod stubs;
 pub mod ref_annexb;
 pub mod bx;
 
+#[cfg(all(kani, feature = "c03"))]
+pub mod p_c03;
 #[cfg(all(kani, feature = "c12"))]
 pub mod p_c12;
 #[cfg(all(kani, feature = "c14"))]
